@@ -36,9 +36,9 @@ func main() {
 	if *listP {
 		type pj struct {
 			ID, Explanation, Technique string
-			NotDecided            []string
-			Rules                 []string
-			Mutants               int
+			NotDecided                 []string
+			Rules                      []string
+			Mutants                    int
 		}
 		var out []pj
 		for _, id := range sortedPropIDs() {
@@ -280,7 +280,7 @@ func fatal(ids []string, evDir string, format string, a ...any) {
 	for _, id := range ids {
 		evPath := filepath.Join(evDir, id+".json")
 		ev := evidence{PropertyID: id, Tier: "quick", Level: "other", Violations: 1,
-			Coverage: map[string]any{"explanation": "analysis could not run: " + msg, "evaluations": 0, "distinct_nontrivial": 0},
+			Coverage:    map[string]any{"explanation": "analysis could not run: " + msg, "evaluations": 0, "distinct_nontrivial": 0},
 			Assumptions: trustedBase}
 		b, _ := json.MarshalIndent(ev, "", " ")
 		_ = os.MkdirAll(evDir, 0o755)
